@@ -50,14 +50,18 @@ contract('InstantiatedDeclaration.to_cpp', returns='str', requires=[PLAIN], modi
 # ---- C02: what instantiation leaves untouched (names, default text, order); the substituted type itself is
 #      decided by the bounded oracle (instantiate_type is out of the engine's reach: deep copy, str.replace)
 TYPE_ANY_ = 'ref:Type|ref:TemplatedType'
+# instantiate_type works on a deep copy of the type.  Its frame contract ("changes no object that existed before") is ASSUMED, not
+# proved: the attempt (DESIGN 11.5) showed that one write is not frame-safe -- in the `This::` branch the template arguments put in
+# by the recursion can be the caller's own cpp_typename, whose namespaces are then overwritten when a namespace is called `This`
+# (known finding C02-namespace-called-This) -- and the remaining obligations need invariants over the copied graph that the
+# engine's deepcopy model (tools/prove.py shows them) does not carry through the loops.  Substitution and isolation are decided by
+# the bounded reference oracles of C02 / C13.
 contract('instantiate_type',
          params={'ctype': TYPE_ANY_, 'template_typenames': 'list[str]', 'instantiations': 'list[ref:Typename]',
                  'cpp_typename': 'ref:Typename', 'instantiated_class': 'ref:InstantiatedClass|none'},
-         returns=TYPE_ANY_, modifies=['alloc'],
-         loops={k: {'inv': [], 'modifies': ['new:name', 'new:namespaces', 'new:instantiations', 'new:template_params', 'new:typename', 'new:SEQ']}
-                for k in range(4)},
-         note='frame contract: returns a Type and changes no object that existed before (it works on a deep copy); the '
-              'substitution itself is checked by the bounded reference oracle of C02')
+         returns=TYPE_ANY_, modifies=['alloc'], assumed=True,
+         note='type-level and frame (works on a deep copy); not proved -- a namespace called `This` breaks the frame (known finding), '
+              'substitution and isolation are decided by the bounded oracles of C02 / C13')
 contract('instantiate_args_list',
          params={'args_list': 'list[ref:Argument]', 'template_typenames': 'list[str]', 'instantiations': 'list[ref:Typename]',
                  'cpp_typename': 'ref:Typename'},
